@@ -32,12 +32,11 @@ CODE_AREA = 0x3d00
 
 
 def same_code(got, src, reads=1):
-    """Equality up to the reader's normalisation: CR reads as a blank, and each read may supply one final newline
-    (or one final newline may be missing). A reader that eats several trailing newlines, or the last character, is
-    not covered by that."""
+    """Equality up to the reader's normalisation: CR reads as a blank, and each read may supply one final newline.
+    Losing characters - trailing blank lines included - is not covered by that."""
     got = got.replace(b'\r', b' ')
     src = src.replace(b'\r', b' ')
-    return any(got == src + b'\n' * k for k in range(reads + 1)) or got + b'\n' == src
+    return any(got == src + b'\n' * k for k in range(reads + 1))
 
 
 def label_rows(k):
@@ -233,6 +232,11 @@ def small_codes():
         out.append((('small-comp', n), b'--' + comp if n else b''))
         inc = lcg_text(n, UPPER, n)
         out.append((('small-inc', n), b'--' + inc if n else b''))
+    # endings: 0..4 final newlines / blank lines with blanks, after code stored raw and after code stored compressed
+    for k, tail in enumerate((b'', b'\n', b'\n\n', b'\n\n\n', b'\n\n\n\n', b'\n \n', b' \n\t\n', b'\n\n--\n\n')):
+        out.append((('small-inc', 100 + k), b'x=1' + tail))
+        out.append((('small-comp', 100 + k), b'a=a a=a a=a a=a a=a a=a a=a a=a a=a a=a a=a a=a a=a a=a' + tail))
+        out.append((('small-inc', 200 + k), tail))
     return out
 
 
